@@ -494,7 +494,12 @@ class SemanticErrorChecker:
             True if the attribute access is valid.
         """
         variable = variable_list[0]
-        if variable in task.variables and task.variables[variable] in self.structs:
+        # only a variable of a Struct type has attributes (an Array type is not even hashable)
+        if (
+            variable in task.variables
+            and isinstance(task.variables[variable], str)
+            and task.variables[variable] in self.structs
+        ):
             struct = self.structs[task.variables[variable]]
             predecessor = struct
             for i in range(1, len(variable_list)):
